@@ -515,8 +515,20 @@ def brokerOpV (st : BkState) (impl : String) (ws : List String) : Option (BkStat
   let core := match core.splitOn " H[" with
     | [a, _] => a
     | _ => core
+  -- `bk.ack n` is the acknowledgement the bookkeeping says is due: judge it as that `bk.send`
+  let wsJ : List String := match ws with
+    | ["bk.ack", n] =>
+      match n.toNat? with
+      | some nn =>
+        match pendMin ((st.pend.find? (·.1 == nn)).map (·.2) |>.getD []) with
+        | some ((id, q, stage), _) =>
+          ["bk.send", n, (if q == 2 && stage == 0 then "PUBREC" else if q == 2 then "PUBCOMP" else "PUBACK"), s!"id={id}"]
+        | none => ws
+      | none => ws
+    | _ => ws
   match brokerOp st impl ws with
   | some (st', m, _, g) =>
+    let ws := wsJ
     if impl.startsWith "panic" then
       -- the real code panicked while serving this op (recovered by the harness when it ran in the harness's
       -- own goroutine; in a connection goroutine the process dies and bin/check reports the crash)
